@@ -353,6 +353,19 @@ def step (st : St) (toks : List Val) (impl : String) : St × Out :=
   | [.w "runlink", .i r, .i n] => withRing st r fun a => ringLine st (.unlink a n)
   | [.w "rlen", .i r] => withRing st r fun a => ringLine st (.len a)
   | [.w "rdo", .i r] => withRing st r fun a => ringLine st (.doAll a)
+  | [.w "rdomut", .i r, .i s] =>
+    -- Do whose callback links s behind the element it is visiting on its SECOND call (x = r.Next(); not when s is x itself, not when the ring
+    -- has one element: then there is no second call): `Do` reads `p.next` AFTER the callback, so the walk is the walk of the ring as it is after
+    -- `x.Link(s)`; a nil r has no call at all
+    withRing st r fun a => withRing st s fun b =>
+      match a, b with
+      | some _, some bi =>
+        match (Model.Ring.step st.rheap (.next a)).2 with
+        | .ref (some x) =>
+          if a == some x || x == bi then ringLine st (.doAll a)
+          else ringLine (ringLine st (.link (some x) b)).1 (.doAll a)
+        | _ => ringLine st (.doAll a)
+      | _, _ => ringLine st (.doAll a)
   | [.w "rfwd", .i r] => withRing st r fun a => ringLine st (.fwd a ringFuel)
   | [.w "rbwd", .i r] => withRing st r fun a => ringLine st (.bwd a ringFuel)
   | _ => bad st
